@@ -183,3 +183,30 @@ SERVICE_IDS: dict[str, int] = {
     "TesterPresent": 0x3E, "NegativeResponse": 0x7F, "AccessTimingParameter": 0x83, "SecuredDataTransmission": 0x84,
     "ControlDTCSetting": 0x85, "ResponseOnEvent": 0x86, "LinkControl": 0x87,
 }
+
+
+# ISO 14229-1 sub-function / parameter value tables (2013 / 2020 editions), keyed by the enum class name used in
+# gallia.services.uds.core.constants.  Only names listed here are compared; members the oracle does not know are reported as a note.
+SUBFUNCTION_TABLES = {
+    "DiagnosticSessionControlSubFuncs": {"defaultSession": 0x01, "programmingSession": 0x02, "extendedDiagnosticSession": 0x03, "safetySystemDiagnosticSession": 0x04},
+    "EcuResetSubFuncs": {"hardReset": 0x01, "keyOffOnReset": 0x02, "softReset": 0x03, "enableRapidPowerShutDown": 0x04, "disableRapidPowerShutDown": 0x05},
+    "RoutineControlSubFuncs": {"startRoutine": 0x01, "stopRoutine": 0x02, "requestRoutineResults": 0x03},
+    "CCSubFuncs": {"enableRxAndTx": 0x00, "enableRxAndDisableTx": 0x01, "disableRxAndEnableTx": 0x02, "disableRxAndTx": 0x03},
+    "CDTCSSubFuncs": {"ON": 0x01, "OFF": 0x02},
+    "InputOutputControlParameter": {"returnControlToECU": 0x00, "resetToDefault": 0x01, "freezeCurrentState": 0x02, "shortTermAdjustment": 0x03},
+    "DTCFormatIdentifier": {"ISO_15031_6": 0x00, "ISO_14229_1": 0x01, "SAE_J1939_73": 0x02, "ISO_11992_4": 0x03},
+    "DataIdentifier": {"ActiveDiagnosticSessionDataIdentifier": 0xF186},
+    "DynamicallyDefineDataIdentifierSubFuncs": {"defineByIdentifier": 0x01, "defineByMemoryAddress": 0x02, "clearDynamicallyDefinedDataIdentifier": 0x03},
+    "ReadDTCInformationSubFuncs": {
+        "reportNumberOfDTCByStatusMask": 0x01, "reportDTCByStatusMask": 0x02, "reportDTCSnapshotIdentification": 0x03, "reportDTCSnapshotRecordByDTCNumber": 0x04,
+        "reportDTCStoredDataByRecordNumber": 0x05, "reportDTCExtDataRecordByDTCNumber": 0x06, "reportNumberOfDTCBySeverityMaskRecord": 0x07,
+        "reportDTCBySeverityMaskRecord": 0x08, "reportSeverityInformationOfDTC": 0x09, "reportSupportedDTC": 0x0A, "reportFirstTestFailedDTC": 0x0B,
+        "reportFirstConfirmedDTC": 0x0C, "reportMostRecentTestFailedDTC": 0x0D, "reportMostRecentConfirmedDTC": 0x0E, "reportMirrorMemoryDTCByStatusMask": 0x0F,
+        "reportMirrorMemoryDTCExtDataRecordByDTCNumber": 0x10, "reportNumberOfMirrorMemoryDTCByStatusMask": 0x11,
+        "reportNumberOfEmissionsRelatedOBDDTCByStatusMask": 0x12, "reportEmissionsRelatedOBDDTCByStatusMask": 0x13, "reportDTCFaultDetectionCounter": 0x14,
+        "reportDTCWithPermanentStatus": 0x15, "reportDTCExtDataRecordByRecordNumber": 0x16, "reportUserDefMemoryDTCByStatusMask": 0x17,
+        "reportUserDefMemoryDTCSnapshotRecordByDTCNumber": 0x18, "reportUserDefMemoryDTCExtDataRecordByDTCNumber": 0x19,
+        "reportDTCExtendedDataRecordIdentification": 0x1A, "reportWWHOBDDTCByMaskRecord": 0x42, "reportWWHOBDDTCWithPermanentStatus": 0x55,
+        "reportDTCInformationByDTCReadinessGroupIdentifier": 0x56,
+    },
+}
